@@ -52,6 +52,7 @@ const (
 	sigNone lsig = iota
 	sigBreak
 	sigCont
+	sigErr // the body fails: a variable bound to nil reads as an unknown identifier
 )
 
 func show08(v interface{}) string {
@@ -75,6 +76,9 @@ func (b lbody) run(k, v interface{}, out *strings.Builder) lsig {
 		case "key":
 			out.WriteString(show08(k))
 		case "val":
+			if v == nil {
+				return sigErr
+			}
 			out.WriteString(show08(v))
 		case "brk":
 			return sigBreak
@@ -96,8 +100,10 @@ func (b lbody) run(k, v interface{}, out *strings.Builder) lsig {
 			}
 		case "inner":
 			for ik, iv := range []int{7, 8} {
-				if it.Body.run(ik, iv, out) == sigBreak {
+				if s := it.Body.run(ik, iv, out); s == sigBreak {
 					break
+				} else if s == sigErr {
+					return s
 				}
 			}
 		}
@@ -105,11 +111,15 @@ func (b lbody) run(k, v interface{}, out *strings.Builder) lsig {
 	return sigNone
 }
 
+const ref08Err = "\x00unknown identifier"
+
 func refLoop(keys, vals []interface{}, b lbody) string {
 	var out strings.Builder
 	for i := range vals {
-		if b.run(keys[i], vals[i], &out) == sigBreak {
+		if s := b.run(keys[i], vals[i], &out); s == sigBreak {
 			break
+		} else if s == sigErr {
+			return ref08Err
 		}
 	}
 	return out.String()
@@ -185,6 +195,10 @@ func init() {
 			iterable{"untilneg", nil, "until(0 - 2)", nil, nil, "OK", []string{"1"}},
 			iterable{"map1", &Bind{"it", vMap("string", "int", vStr("5"), vInt(5))}, "it", []interface{}{"5"}, []interface{}{5}, "OK", []string{"5"}},
 			iterable{"map3", &Bind{"it", vMap("string", "int", vStr("a"), vInt(1), vStr("b"), vInt(2), vStr("c"), vInt(3))}, "it", []interface{}{"a", "b", "c"}, []interface{}{1, 2, 3}, "SET", []string{"9"}},
+			// a nil element / nil value is an element like any other: its iteration takes place
+			iterable{"nils", &Bind{"it", vSlice("iface", vInt(7), VD{K: "nil"}, vInt(0), VD{K: "nil"})}, "it", []interface{}{0, 1, 2, 3}, []interface{}{7, nil, 0, nil}, "OK", []string{"7", "1", "0"}},
+			iterable{"literalnil", nil, "[nil, 6, nil]", []interface{}{0, 1, 2}, []interface{}{nil, 6, nil}, "OK", []string{"6", "1", "2"}},
+			iterable{"mapnil", &Bind{"it", vMap("string", "iface", vStr("a"), VD{K: "nil"})}, "it", []interface{}{"a"}, []interface{}{nil}, "OK", []string{"1"}},
 			iterable{"nil", nil, "nil", nil, nil, "OK", []string{"1"}},
 			iterable{"nilkey", &Bind{"it", vMap("string", "iface", vStr("a"), vInt(1))}, `it["zz"]`, nil, nil, "OK", []string{"1"}},
 			iterable{"int", &Bind{"it", vInt(5)}, "it", nil, nil, "ERR", []string{"1"}},
@@ -216,7 +230,12 @@ func init() {
 				if len(it.vals) > 0 {
 					e.Distinct(it.name + "/" + b.src("k", "v"))
 				}
-				if o.Class != "OK" || o.Out != want {
+				if strings.HasPrefix(want, ref08Err) {
+					// the body itself fails for one of the elements (it prints a variable bound to nil)
+					if o.Class != "ERR" || !strings.Contains(o.Msg, "unknown identifier") {
+						e.Violate("c08-unroll", fmt.Sprintf("%s: rendered %q (%s %s), but the body fails for the nil element (unknown identifier)", tmpl, o.Out, o.Class, firstLine(o.Msg)), rp)
+					}
+				} else if o.Class != "OK" || o.Out != want {
 					e.Violate("c08-unroll", fmt.Sprintf("%s: rendered %q (%s), element-by-element reference %q", tmpl, o.Out, o.Class, want), rp)
 				}
 			case "SET":
